@@ -4,25 +4,25 @@ import importlib, json, os, sys
 sys.path.insert(0, os.path.dirname(os.path.dirname(os.path.abspath(__file__))))
 TECH = {
  'C01': 'translation validation of generated decoders and lookup tables against canboat.json; partial evaluation of utils helpers at database constants',
- 'C02': 'encoder/decoder/database table agreement; sentinel, sign and rounding sibling agreement on helper residuals',
- 'C03': 'abstract interpretation (byte-provenance domain) of the fast-packet segmenter over all lengths x counter states; bit provenance of the header byte',
- 'C04': 'statement-CFG must-pass-through guards, reset completeness, sorted concatenation, bounded payload term',
- 'C05': 'per-bit provenance of identifier build/parse, both branches, both compositions',
- 'C06': 'abstract interpretation of wire-format writers and readers over the byte/bit-provenance domain; checksum coverage',
+ 'C02': 'encoder/decoder/database table agreement; encode_number residual as an exact piecewise-affine function of the tick count (interval splitting); absent-value paths by partial evaluation at None',
+ 'C03': 'abstract interpretation (byte-provenance domain) of the fast-packet segmenter over all lengths x counter states, composed with the interpreted reassembler; interpreted frame histories with symbolic payloads',
+ 'C04': 'abstract interpretation of the reassembler on bounded families of frame histories (reordering, duplication, loss, interleaving; symbolic payload and padding); statement-CFG guard rules as confirmation',
+ 'C05': 'per-bit provenance of identifier build/parse under a case split on the bits the predicates consult (256 values of the PDU-format byte), both compositions; writer/reader composition for the header word and identifier bytes',
+ 'C06': 'abstract interpretation of wire-format writers and readers over the byte/bit-provenance domain; checksum in a linear-sum domain; serial scanner interpreted on byte-class streams',
  'C07': 'single-funnel who-calls check; five front-ends interpreted over the provenance domain (roles, orientation)',
- 'C08': 'translation validation of generated dispatchers (arms, guards as Extract==Match, targets, fallback) against canboat.json',
- 'C09': 'range-check dominance on encode_number residuals; mask/shift table vs database; raise-set wrapping; producer inventory',
- 'C10': 'decision-table extraction: guards of every filter return evaluated over all list shapes; normal-form and element-type rules',
+ 'C08': 'translation validation of generated dispatchers (arms, guards as Extract==Match, targets, fallback) against canboat.json; decision table over payload classes when the spelling differs; encoder lookup interpreted per definition',
+ 'C09': 'encode_number residual as an exact piecewise-affine function (range, wrap, raise type); mask/shift table vs database; raise-set wrapping; producer inventory; get_field_by_id interpreted',
+ 'C10': 'decision-table extraction: decoder constructor interpreted per configuration, guards of every filter return evaluated over all list shapes; normal-form and element-type rules',
  'C11': 'key-role dataflow on the source map; manufacturer/window decision table; identity field ids vs database',
- 'C12': 'exception-edge containment, single FIFO consumer, who-may-put/get, framing constants on the statement CFG',
- 'C13': 'EOF discipline per read API, fault-path pairing, retry configuration, no-spin cycle rule on the statement CFG',
- 'C14': 'typestate: single state writer, not-CLOSED test reaching every state change with no await between (atomic sections)',
- 'C15': 'dump decision table; normal-form rule; serialisable-type coverage of the JSON hook; raw-first encoder producers',
+ 'C12': 'exception-edge containment, single FIFO consumer, who-may-put/get, framing constants on the statement CFG; serial scanner interpreted on byte-class streams under many cuts into reads',
+ 'C13': 'EOF discipline per read API, fault-path pairing, retry configuration, no-spin cycle rule and forward must-analysis (previous task cancelled) on the statement CFG; termination of the interpreted serial scanner',
+ 'C14': 'typestate: single state writer, not-CLOSED test reaching every state change with no await between (atomic sections); forward must-analysis with branch refinement for the change-only notification',
+ 'C15': 'dump decision table; normal-form rule; to_json / its default hook / from_json interpreted over abstract values; raw-first encoder producers',
  'C16': 'ownership/aliasing: read-only summary of mutable default parameters through resolved callees; class/global state sweep',
- 'C17': 'translation validation of primary-key flags against canboat.json; dependency set of the hashed string',
- 'C18': 'effect set and guard extraction of the conversion loop; affine-domain evaluation of the conversion helpers',
+ 'C17': 'translation validation of primary-key flags against canboat.json; add_data interpreted with hashlib recorded (the digest input as a sequence of literals and symbolic raw values)',
+ 'C18': 'apply_preferred_units interpreted per (quantity, preference) on symbolic fields; affine-domain evaluation of the conversion helpers',
  'C19': 'atomic section / lock region over writes; dominance of encoding; explicit-raise sets closed over the resolved call graph',
- 'C20': 'three-premise buffer bound on the statement CFG; progress of the scan loop; checksum dominance; constant agreement',
+ 'C20': 'serial scanner interpreted on streams over the byte classes AA / 55 / other under many cuts into reads (delivery, resynchronisation, buffer bound, termination); USB reader interpreted with the checksum comparison answered both ways; statement-CFG rules as confirmation',
 }
 NOTE = {
  'C05': 'proved per bit for inputs within their declared widths; trusted: CPython ast, bitprov transfer functions for & | << >>',
@@ -48,7 +48,7 @@ def main():
             'replay_cmd_template': './check-replay {path}',
             'engine': 'n2kstatic',
             'level_claimed': {'category': mod.LEVEL, 'text': mod.EXPLANATION, 'design_ref': f"DESIGN.md section 3.{int(pid[1:])}"},
-            'level_note': 'Decides the named structural clauses (necessary conditions), not the behaviour as a whole. Undecided remainder: ' + und +
+            'level_note': 'Decides the named clauses (necessary conditions; some on bounded families of abstract histories / streams, see DESIGN 3.0), not the behaviour as a whole. Undecided remainder: ' + und +
                           ' Trusted base: ' + '; '.join(mod.ASSUMPTIONS) + '.',
             'technique': 'static analysis: ' + TECH[pid],
         })
